@@ -465,3 +465,30 @@ Proof.
   intros [x ->]. induction 1 as [v|i n v Hn Hd IH]; [constructor|].
   eapply TDNode; [|exact IH]. rewrite nth_error_app1; [exact Hn|]. apply nth_error_Some. congruence.
 Qed.
+
+(** ** SAFETY OF ACCEPTANCE for the whole file: "never builds a wrong diagram" *)
+Theorem tdd_import_whole_safe strict slm inp h st roots :
+  tdd_import_whole strict slm inp = TOk (h, st, roots) ->
+  header_wf h /\ h_ascii h = true /\ length slm = length (h_ids h) /\
+  tstore_wf (ts_store st) /\ tlevels_in slm (ts_store st) /\
+  Forall (tref_in (ts_store st)) (ts_nodes st) /\ length (ts_nodes st) = N.to_nat (h_nnodes h) /\
+  Forall (tref_in (ts_store st)) roots /\ length roots = length (h_rootids h) /\
+  forall r, In r roots -> forall env,
+    exists v, tdenotes (ts_store st) env r v /\ (forall v', tdenotes (ts_store st) env r v' -> v' = v) /\
+              tdd_eval_root (ts_store st) env r = v.
+Proof.
+  unfold tdd_import_whole. destruct (load_header inp) as [[h0 rest]|e] eqn:L; [|discriminate].
+  destruct (Nat.eqb_spec (length slm) (length (h_ids h0))) as [Hlen|]; cbn [negb]; [|discriminate].
+  destruct (h_ascii h0) eqn:Ha; cbn [negb]; [|discriminate].
+  unfold tdd_import_body.
+  destruct (tdd_import_file_safe strict (varinfo_none (h_varinfo h0)) slm (h_nnodes h0) (h_rootids h0) rest) as [_ Hs].
+  destruct (tdd_import_file strict (varinfo_none (h_varinfo h0)) slm (h_nnodes h0) (h_rootids h0) rest)
+    as [[st0 roots0]|]; [|discriminate].
+  intros H; inversion H; subst. clear H.
+  destruct (load_header_wf _ _ _ L) as [Hwf _].
+  destruct (Hs _ _ eq_refl) as (W & Lv & Fn & Ln & Fr & Lr & _ & _).
+  splits; try assumption.
+  intros r Hr env. rewrite Forall_forall in Fr.
+  destruct (tref_denotes (ts_store st) env r W (Fr _ Hr)) as (v & D & U & _ & E).
+  exists v. splits; assumption.
+Qed.
